@@ -96,6 +96,41 @@ pub fn bfs_case<R: Rep>(abs: &Abs, d: &R, srcs: &[usize], ctx: &mut Ctx) {
         Ok(got) => {
             if got != want {
                 ctx.fail(format!("BfsDist::distances() = {got:?}, definition gives {want:?}"), det());
+                return;
+            }
+        }
+    }
+    // distances() on a search that has already yielded k items: every entry is the exact hop
+    // distance or usize::MAX (never a wrong finite value), and every reachable vertex is either
+    // among the items already yielded or labelled now
+    let len = lv.len();
+    let ks: Vec<usize> = if len <= 6 { (1..len).collect() } else { vec![1, 2, len / 2, len - 1] };
+    for k in ks {
+        ctx.exec();
+        match guarded(|| {
+            let mut it = BfsDist::new(d, srcs.to_vec().into_iter());
+            let head: Vec<(usize, usize)> = it.by_ref().take(k).collect();
+            (head, it.distances())
+        }) {
+            Err(e) => {
+                ctx.fail(format!("BfsDist: {k} × next() then distances() over {rn} panicked: {e}"), det());
+                return;
+            }
+            Ok((head, got)) => {
+                let mut accounted: BTreeSet<usize> = head.iter().map(|x| x.0).collect();
+                let mut bad = got.len() != abs.n();
+                for (v, &w) in got.iter().enumerate() {
+                    if w != usize::MAX {
+                        accounted.insert(v);
+                        if lv.get(&v) != Some(&w) {
+                            bad = true;
+                        }
+                    }
+                }
+                if bad || accounted.len() != lv.len() {
+                    ctx.fail(format!("BfsDist: after {k} × next() (items {head:?}) distances() = {got:?}; hop distances are {want:?}: an entry is neither exact nor usize::MAX, or a reachable vertex is neither yielded nor labelled"), det());
+                    return;
+                }
             }
         }
     }
@@ -155,7 +190,7 @@ pub fn c04(tier: &str, seed: u64) -> Check {
         "C04",
         tier,
         seed,
-        "bounded-exhaustive: every digraph on 0..n (n ≤ 4, and 5 in the thorough tier) × every subset of sources (empty included, both iteration orders) × five representations; Bfs / BfsDist item sequences and BfsDist::distances() compared with hop levels computed by frontier iteration over the reference arc set; order inside a level is free. Beyond exhaustive reach: 17 structured shapes at orders 6, 8, 11 (6..11 thorough) in five representations with every single source and six source sets. Non-trivial: some source set gives ≥ 3 levels and leaves a vertex unreachable.",
+        "bounded-exhaustive: every digraph on 0..n (n ≤ 4, and 5 in the thorough tier) × every subset of sources (empty included, both iteration orders) × five representations; Bfs / BfsDist item sequences and BfsDist::distances() compared with hop levels computed by frontier iteration over the reference arc set; order inside a level is free; additionally distances() is called on a search that has already yielded k items (every k): each entry must be the exact hop distance or usize::MAX and every reachable vertex must be yielded or labelled. Beyond exhaustive reach: 17 structured shapes at orders 6, 8, 11 (6..11 thorough) in five representations with every single source and six source sets. Non-trivial: some source set gives ≥ 3 levels and leaves a vertex unreachable.",
         &["sources are distinct and in range, as the property states", "orders > 5 are not explored"],
         json!({"max_order": if thorough {5} else {4}, "reps": 5}),
     );
@@ -250,6 +285,31 @@ pub fn dfs_case<R: Rep>(abs: &Abs, d: &R, srcs: &[usize], ctx: &mut Ctx) {
         only_truncation = false;
     }
     if errs.is_empty() {
+        // predecessors() on a search that has already yielded k items reports exactly the rest of
+        // the same forest (None for the vertices yielded before the call)
+        let len = c.len();
+        let ks: Vec<usize> = if len <= 6 { (1..len).collect() } else { vec![1, 2, len / 2, len - 1] };
+        for k in ks {
+            ctx.exec();
+            match guarded(|| {
+                let mut it = DfsPred::new(d, srcs.to_vec().into_iter());
+                let head: Vec<(Option<usize>, usize)> = it.by_ref().take(k).collect();
+                (head, it.predecessors().pred)
+            }) {
+                Err(e) => {
+                    ctx.fail(format!("DfsPred: {k} × next() then predecessors() over {rn} panicked: {e}"), det(observed()));
+                    return;
+                }
+                Ok((head, got)) => {
+                    let rest: BTreeMap<usize, Option<usize>> = c[k.min(len)..].iter().map(|&(p, v)| (v, p)).collect();
+                    let want: Vec<Option<usize>> = (0..abs.n()).map(|v| rest.get(&v).copied().flatten()).collect();
+                    if head != c[..k.min(len)] || got != want {
+                        ctx.fail(format!("DfsPred: after {k} × next() (items {head:?}) predecessors() = {got:?}; the rest of the forest reported by a full iteration is {want:?}"), det(observed()));
+                        return;
+                    }
+                }
+            }
+        }
         return;
     }
     // Classifier for the recorded finding D2: the three streams are exactly
@@ -310,7 +370,7 @@ pub fn c06(tier: &str, seed: u64) -> Check {
         "C06",
         tier,
         seed,
-        "bounded-exhaustive: every digraph on 0..n (n ≤ 4; order 5 with ≤ 1-2 sources) × every ordered arrangement of every source subset × five representations; the item streams of Dfs, DfsDist and DfsPred are fed to a depth-first-preorder validator that keeps the current search path and accepts (pred, v, depth) iff it is what C06 states (any neighbour/root order is accepted), then the yielded set must equal the reachable set and predecessors() must be the forest. Beyond exhaustive reach: 17 structured shapes at orders 6, 8, 11 (6..11 thorough). A failing case is attributed to the recorded finding only if all three streams equal, item for item, the prediction 'correct lazy-stack preorder cut at the first pop of an already-visited vertex'. Non-trivial: some arrangement makes a lazy-stack DFS pop an already-visited vertex while unvisited entries remain.",
+        "bounded-exhaustive: every digraph on 0..n (n ≤ 4; order 5 with ≤ 1-2 sources) × every ordered arrangement of every source subset × five representations; the item streams of Dfs, DfsDist and DfsPred are fed to a depth-first-preorder validator that keeps the current search path and accepts (pred, v, depth) iff it is what C06 states (any neighbour/root order is accepted), then the yielded set must equal the reachable set and predecessors() must be the forest; on accepted cases predecessors() is also called on a DfsPred that has already yielded k items (every k) and must report exactly the rest of that forest. Beyond exhaustive reach: 17 structured shapes at orders 6, 8, 11 (6..11 thorough). A failing case is attributed to the recorded finding only if all three streams equal, item for item, the prediction 'correct lazy-stack preorder cut at the first pop of an already-visited vertex'. Non-trivial: some arrangement makes a lazy-stack DFS pop an already-visited vertex while unvisited entries remain.",
         &["sources are distinct and in range", "the known-finding classifier assumes out_neighbors() is ascending (checked by C02)"],
         json!({"max_order_all_arrangements": 4, "order5_sources": if thorough {2} else {1}}),
     );
